@@ -27,6 +27,8 @@ type Spec struct {
 	HoleMinK int
 	// any-scopes: allow the same point several times in one ring (incl. consecutively)
 	Repeats bool
+	// any-scopes with Repeats: revisits allowed but not twice in a row (long walks)
+	NoStutter bool
 }
 
 // Window returns the lattice points of a w x h pixel window with sub steps per pixel.
@@ -210,6 +212,9 @@ func (wk *walker) anyRing(done [][]ref.P, r []ref.P, ringNo int) {
 		if !wk.spec.Repeats && contains(r, p) {
 			continue
 		}
+		if wk.spec.NoStutter && len(r) > 0 && r[len(r)-1] == p {
+			continue
+		}
 		wk.st.Transitions++
 		wk.anyRing(done, append(r, p), ringNo)
 		if wk.st.Aborted {
@@ -266,7 +271,7 @@ func Enumerate(spec Spec, workers int, stop func() bool, visit func(w int, rings
 					wk.st.Transitions++
 					wk.shell(append(r, p))
 				} else {
-					if !spec.Repeats && j.a == j.b {
+					if (!spec.Repeats || spec.NoStutter) && j.a == j.b {
 						continue
 					}
 					if spec.MaxK < 2 {
